@@ -159,12 +159,13 @@ LIVE_SEG = f'/dash/live/bbb/bbb_v7/20.m4v?{LIVE_START}'
 VOD_ENC_SEG = '/dash/vod/bbb/bbb_v7_enc/3.m4v?drm=all'
 PRIMARY = ('/dash/live/bbb/hand_made.mpd', '/dash/vod/bbb/hand_made.mpd', LIVE_SEG, '/dash/vod/bbb/bbb_v7/3.m4v',
            VOD_ENC_SEG, '/patch/bbb/hand_made/1709294400', '/mps/live/testmps/hand_made.mpd',
-           '/dash/live/synempty/hand_made.mpd', '/dash/vod/synunidx/hand_made.mpd', '/dash/live/synnoref/hand_made.mpd')
+           '/dash/live/synempty/hand_made.mpd', '/dash/vod/synunidx/hand_made.mpd', '/dash/live/synnoref/hand_made.mpd',
+           '/time/http-ntp', '/time/xsd')
 # these must answer 200 without hostile options, otherwise the option code behind them is never reached (non-vacuity)
 MUST_SERVE = ('/dash/live/bbb/hand_made.mpd', '/dash/vod/bbb/hand_made.mpd', LIVE_SEG, '/dash/vod/bbb/bbb_v7/3.m4v', VOD_ENC_SEG,
               '/mps/live/testmps/hand_made.mpd', '/play/live/bbb/hand_made/index.html', '/play/mps/live/testmps/hand_made/index.html',
               '/api/multi-period-streams?ajax=1', '/patch/bbb/hand_made/1709294400', '/mps/vod/testmps/1/bbb_v7/2.m4v')
-QUICK_VALUES = ['', 'abc', '9' * 30, '503=', 'all', '1']
+QUICK_VALUES = ['', 'abc', '9' * 30, '503=', 'all', '1', '2147483647', '-2147483647']
 
 
 def hostile_item(arg):
